@@ -33,7 +33,13 @@ func genC20(r *h.Rand, tier string) []h.Case {
 	for i := 0; i < n; i++ {
 		var src string
 		tags := []string{}
-		switch i % 3 {
+		switch i % 4 {
+		case 1:
+			// structural near-misses (clause markers in every kind of body, missing / surplus ends):
+			// whatever the parser accepts must be walkable
+			src, _ = genStructural(r, delims{})
+			src = strings.ReplaceAll(strings.ReplaceAll(src, `{{extends "/base.jet"}}`, ""), `{{import "/base.jet"}}`, "")
+			tags = append(tags, "structural")
 		case 0:
 			k := 1 + r.Intn(4)
 			for j := 0; j < k; j++ {
